@@ -160,12 +160,12 @@ Qed.
 (* entering an exit pseudo state: its entry behaviour runs, then the converted event (the exit point's event type,
    the original payload) is handed to the enclosing machine *)
 Lemma back_enter_exit_point fuel s ev ety rn g :
-  child children s = None -> s_kind (get_state mc s) = KExitPt ety -> g_plan g = [] -> EV_FIRST_USER <= e_ty ev ->
+  child children s = None -> s_kind (get_state mc s) = KExitPt ety -> g_plan g = [] -> e_ty ev <> EV_NONE ->
   exec_entry cf contained mc children fuel s ev EkPlain rn g =
     (Some tt, rn, Glob (Cb KEntry [] s ev false (act rn) :: g_tr g) (S (g_cb g)) [] (g_val g)
                        (g_up g ++ [Evt ety (e_pay ev)]) (g_bad g)).
 Proof.
-  intros Hc Hk Hp Hu. unfold exec_entry. rewrite Hc, Hk. apply Nat.leb_le in Hu. rewrite Hu.
+  intros Hc Hk Hp Hu. unfold exec_entry. rewrite Hc, Hk. apply Nat.eqb_neq in Hu. rewrite Hu. cbn [negb].
   destruct g as [tr cbn0 plan val up bad]. cbn in Hp. subst.
   unfold cb, callback, callback_at, bind, get, getg, putg, ret, push_up. cbn. reflexivity.
 Qed.
